@@ -8,6 +8,11 @@
 // Operands: H G G2 (m x n), b g y (m x 1), Rfull (m x m), Rblock (s x s, present when
 // the reduced constructor is to be run), params (1 x 3: alpha beta kappa),
 // means (n x comps), covs (n x n*comps), weights (comps x 1), int s, int hkind.
+// kind "sukf": one correct() on fresh objects (plus a second, size-mismatching, call on the same SUKF object).
+// kind "sukf_seq": int steps = T; the operands H G G2 b g y Rfull [Rblock] means covs weights hkind carry a
+// suffix _1 .. _T; ONE SUKFCorrection object per constructor flag and ONE UKFCorrection object are driven through
+// the T calls, the harness measurement model being re-programmed between the calls (R, y, h, sizes) and the
+// predicted belief replaced; every call's outputs are printed with the prefix t<step>_.
 #define VF_MAIN
 #include "common.hpp"
 #include <BayesFilters/AdditiveMeasurementModel.h>
@@ -62,14 +67,39 @@ struct FamilyModel : public AdditiveMeasurementModel {
     VectorDescription getMeasurementDescription() const override { return VectorDescription(m_report); }
 };
 
-static void run_sukf(const std::string& pre, const vf::Case& c, const Family& fam, const MatrixXd& R, bool reduced,
-                     const GaussianMixture& pred, long s, double alpha, double beta, double kappa) {
-    const long n = pred.dim, comps = pred.components, m = fam.H.rows();
-    GaussianMixture pred_copy(pred);
+struct Step {
+    Family fam; MatrixXd y, Rfull, Rblock, means, covs, weights; bool has_block;
+};
+static Step load(const vf::Case& c, const std::string& suf) {
+    Step st;
+    st.fam.kind = c.integer("hkind" + suf);
+    st.fam.H = c.mat("H" + suf); st.fam.G = c.mat("G" + suf); st.fam.G2 = c.mat("G2" + suf);
+    st.fam.b = c.mat("b" + suf); st.fam.g = c.mat("g" + suf);
+    st.y = c.mat("y" + suf); st.Rfull = c.mat("Rfull" + suf);
+    st.has_block = c.has_mat("Rblock" + suf);
+    if (st.has_block) st.Rblock = c.mat("Rblock" + suf);
+    st.means = c.mat("means" + suf); st.covs = c.mat("covs" + suf); st.weights = c.mat("weights" + suf);
+    return st;
+}
+static void program(FamilyModel* mp, const Step& st, const MatrixXd& R) {
+    mp->f = st.fam; mp->R = R; mp->y = st.y; mp->m = st.fam.H.rows(); mp->m_report = mp->m;
+}
+static GaussianMixture belief(const Step& st) {
+    GaussianMixture pred(st.means.cols(), st.means.rows());
+    pred.mean() = st.means; pred.covariance() = st.covs; pred.weight() = st.weights;
+    return pred;
+}
+static GaussianMixture filler(long comps, long n) {
     GaussianMixture corr(comps, n);
     corr.mean().setConstant(7.25); corr.covariance().setConstant(-3.5); corr.weight().setConstant(0.125);
-    FamilyModel* mp = new FamilyModel(fam, R, c.mat("y"), n, m);   // owned by the SUKFCorrection below
-    SUKFCorrection sukf(std::unique_ptr<AdditiveMeasurementModel>(mp), alpha, beta, kappa, s, reduced);
+    return corr;
+}
+
+// one correct() + getLikelihood() of an existing SUKFCorrection whose model has been programmed for this call
+static void call_sukf(const std::string& pre, SUKFCorrection& sukf, FamilyModel* mp, const GaussianMixture& pred, long s, bool second) {
+    const long n = pred.dim, comps = pred.components, m = mp->m;
+    GaussianMixture pred_copy(pred);
+    GaussianMixture corr = filler(comps, n);
     {
         vf::Entry e("SUKFCorrection::correct");
         sukf.freeze_measurements();
@@ -91,33 +121,51 @@ static void run_sukf(const std::string& pre, const vf::Case& c, const Family& fa
                                             && vf::bit_equal(pred.weight(), pred_copy.weight()) ? 1 : 0);
     vf::out_int(pre + "out_equals_pred", corr.components == pred.components && corr.dim == pred.dim && vf::bit_equal(corr.mean(), pred.mean())
                                              && vf::bit_equal(corr.covariance(), pred.covariance()) && vf::bit_equal(corr.weight(), pred.weight()) ? 1 : 0);
-    // second step on the SAME object with a measurement size that is not a multiple of s:
-    // output = input, and no likelihood may be reported (the first step's innovations must not survive)
-    if (s >= 2 && m % s == 0) {
+    // single cases: a second call on the SAME object with a measurement size that is not a multiple of s:
+    // output = input, and no likelihood may be reported (the first call's innovations must not survive)
+    if (second && s >= 2 && m % s == 0) {
         mp->m_report = m + 1;
-        GaussianMixture corr2(comps, n);
-        corr2.mean().setConstant(7.25); corr2.covariance().setConstant(-3.5); corr2.weight().setConstant(0.125);
+        GaussianMixture corr2 = filler(comps, n);
         { vf::Entry e("SUKFCorrection::correct#2"); sukf.correct(pred, corr2); }
         bool ok2; VectorXd lik2;
         { vf::Entry e("SUKFCorrection::getLikelihood#2"); std::tie(ok2, lik2) = sukf.getLikelihood(); }
         vf::out_int(pre + "2_lik_valid", ok2 ? 1 : 0);
         vf::out_int(pre + "2_out_equals_pred", corr2.components == pred.components && corr2.dim == pred.dim && vf::bit_equal(corr2.mean(), pred.mean())
                                                    && vf::bit_equal(corr2.covariance(), pred.covariance()) && vf::bit_equal(corr2.weight(), pred.weight()) ? 1 : 0);
+        mp->m_report = m;
     }
+}
+
+static void call_ukf(const std::string& pre, UKFCorrection& ukf, const GaussianMixture& pred) {
+    const long n = pred.dim, comps = pred.components;
+    GaussianMixture corr = filler(comps, n);
+    {
+        vf::Entry e("UKFCorrection::correct");
+        ukf.freeze_measurements();
+        ukf.correct(pred, corr);
+    }
+    bool ok; VectorXd lik;
+    { vf::Entry e("UKFCorrection::getLikelihood"); std::tie(ok, lik) = ukf.getLikelihood(); }
+    for (long i = 0; i < comps; i++) {
+        vf::out_mat(pre + "u_mean" + std::to_string(i), corr.mean(i));
+        vf::out_mat(pre + "u_cov" + std::to_string(i), corr.covariance(i));
+        vf::out_num(pre + "u_lik" + std::to_string(i), ok && i < lik.size() ? lik(i) : NAN);
+    }
+    vf::out_int(pre + "u_lik_valid", ok ? 1 : 0);
 }
 
 int main() {
     vf::Case c;
     while (vf::read_case(std::cin, c)) {
-        Family fam;
-        fam.kind = c.integer("hkind");
-        fam.H = c.mat("H"); fam.G = c.mat("G"); fam.G2 = c.mat("G2"); fam.b = c.mat("b"); fam.g = c.mat("g");
-        const MatrixXd& means = c.mat("means"); const MatrixXd& covs = c.mat("covs");
+        const bool seq = c.kind == "sukf_seq";
+        const long T = seq ? c.integer("steps") : 1;
+        std::vector<Step> steps;
+        for (long t = 1; t <= T; t++) steps.push_back(load(c, seq ? "_" + std::to_string(t) : ""));
         const MatrixXd& params = c.mat("params");
         const double alpha = params(0, 0), beta = params(0, 1), kappa = params(0, 2);
-        const long n = means.rows(), comps = means.cols(), m = fam.H.rows(), s = c.integer("s");
-        GaussianMixture pred(comps, n);
-        pred.mean() = means; pred.covariance() = covs; pred.weight() = c.mat("weights");
+        const long n = steps[0].means.rows(), s = c.integer("s");
+        bool all_block = true;
+        for (auto& st : steps) all_block = all_block && st.has_block;
 
         vf::out_begin(c.id);
         // unscented weights as the library computes them
@@ -126,33 +174,33 @@ int main() {
             sigma_point::UTWeight w(static_cast<std::size_t>(n), alpha, beta, kappa);
             vf::out_mat("wm", w.mean); vf::out_mat("wc", w.covariance); vf::out_num("c", w.c);
         }
-        // the SVD factor sigma_point() uses (same Eigen call; the model takes it as its square-root oracle)
-        for (long i = 0; i < comps; i++) {
-            MatrixXd P = pred.covariance(i);
-            JacobiSVD<MatrixXd> svd = P.jacobiSvd(ComputeThinU);
-            MatrixXd A = svd.matrixU() * svd.singularValues().cwiseSqrt().asDiagonal();
-            vf::out_mat("A" + std::to_string(i), A);
+        // the objects live for the whole case; their measurement models are owned by them and re-programmed per call
+        const Step& s0 = steps[0];
+        FamilyModel *mpr = nullptr, *mpf = nullptr, *mpu = nullptr;
+        std::unique_ptr<SUKFCorrection> sukf_r, sukf_f;
+        if (all_block) {
+            mpr = new FamilyModel(s0.fam, s0.Rblock, s0.y, n, s0.fam.H.rows());
+            sukf_r.reset(new SUKFCorrection(std::unique_ptr<AdditiveMeasurementModel>(mpr), alpha, beta, kappa, s, true));
         }
-        if (c.has_mat("Rblock")) run_sukf("r_", c, fam, c.mat("Rblock"), true, pred, s, alpha, beta, kappa);
-        run_sukf("f_", c, fam, c.mat("Rfull"), false, pred, s, alpha, beta, kappa);
-        // standard additive UKF on the same inputs
-        {
-            GaussianMixture corr(comps, n);
-            corr.mean().setConstant(7.25); corr.covariance().setConstant(-3.5); corr.weight().setConstant(0.125);
-            UKFCorrection ukf(std::unique_ptr<AdditiveMeasurementModel>(new FamilyModel(fam, c.mat("Rfull"), c.mat("y"), n, m)), alpha, beta, kappa);
-            {
-                vf::Entry e("UKFCorrection::correct");
-                ukf.freeze_measurements();
-                ukf.correct(pred, corr);
+        mpf = new FamilyModel(s0.fam, s0.Rfull, s0.y, n, s0.fam.H.rows());
+        sukf_f.reset(new SUKFCorrection(std::unique_ptr<AdditiveMeasurementModel>(mpf), alpha, beta, kappa, s, false));
+        mpu = new FamilyModel(s0.fam, s0.Rfull, s0.y, n, s0.fam.H.rows());
+        UKFCorrection ukf(std::unique_ptr<AdditiveMeasurementModel>(mpu), alpha, beta, kappa);
+
+        for (long t = 1; t <= T; t++) {
+            const Step& st = steps[t - 1];
+            const std::string tp = seq ? "t" + std::to_string(t) + "_" : "";
+            GaussianMixture pred = belief(st);
+            // the SVD factor sigma_point() uses (same Eigen call; the model takes it as its square-root oracle)
+            for (long i = 0; i < (long)pred.components; i++) {
+                MatrixXd P = pred.covariance(i);
+                JacobiSVD<MatrixXd> svd = P.jacobiSvd(ComputeThinU);
+                MatrixXd A = svd.matrixU() * svd.singularValues().cwiseSqrt().asDiagonal();
+                vf::out_mat(tp + "A" + std::to_string(i), A);
             }
-            bool ok; VectorXd lik;
-            { vf::Entry e("UKFCorrection::getLikelihood"); std::tie(ok, lik) = ukf.getLikelihood(); }
-            for (long i = 0; i < comps; i++) {
-                vf::out_mat("u_mean" + std::to_string(i), corr.mean(i));
-                vf::out_mat("u_cov" + std::to_string(i), corr.covariance(i));
-                vf::out_num("u_lik" + std::to_string(i), ok && i < lik.size() ? lik(i) : NAN);
-            }
-            vf::out_int("u_lik_valid", ok ? 1 : 0);
+            if (all_block) { program(mpr, st, st.Rblock); call_sukf(tp + "r_", *sukf_r, mpr, pred, s, !seq); }
+            program(mpf, st, st.Rfull); call_sukf(tp + "f_", *sukf_f, mpf, pred, s, !seq);
+            program(mpu, st, st.Rfull); call_ukf(tp, ukf, pred);
         }
         vf::out_end();
     }
